@@ -10,12 +10,15 @@ Case kinds (all plain JSON):
              | ["other_interp", "minor-1"|"minor+1"|"major+1"]   entry written by a second copy of jinja2/bccache.py that was
                executed while sys.version_info reported another interpreter version
   {"kind": "hist",   "envs": [SPEC, SPEC], "tpl": {name: PATTERN}, "ops": [OP...], "oracle": "full"|"weak"}
+      (any kind may carry "mtime": "fixed": template files keep one modification time across edits)
       OP = ["L", env index, name] | ["M", name] | ["C", env index]
   {"kind": "memc",   "envs": [SPEC, SPEC], "tpl": {...}, "ops": [...], "ignore": bool, "timeout": int|None,
                      "gets": [GETB...], "sets": [SETB...]}   (behaviour of the n-th get/set = list[n % len])
       GETB = "ok" | "raise" | "none" | "empty" | ["trunc", k];  SETB = "ok" | "raise" | "drop" | "store_raise" | ["trunc", k]
 
-  SPEC = {"opts": {...compile relevant options...}, "loader": "dict"|"fsA"|"fsB"}
+  SPEC = {"opts": {...compile relevant options...}, "loader": "dict"|"fsA"|"fsB"|"onefile"}
+         ("onefile": a FunctionLoader that reports one shared file name for every template name;
+          opts.autoescape may be "select" = select_autoescape(("html",)))
   PATTERN = template source in which "@V@" is replaced by the current version number of the template
   (versions only grow, so a stale rendering is distinguishable from every rendering of the current source),
   "@S@" by the (version mod 9)-th of nine line-separator characters and "@T@" by a final newline in odd versions
@@ -48,7 +51,7 @@ RULE = (
     "stored entry, zero-length, directory in place, stale source, entry of another name, five foreign magic headers with a "
     "payload that renders differently, entries written by a copy of the bccache module executed under three other "
     "interpreter versions, trailing garbage; (c) all histories ending in a load, of length <= 4 (quick) / <= 5 "
-    "(thorough; <= 6 for four of the pairs), over {load(env0|env1, a|b), modify(a|b), clear} for 5 equally configured pairs (source versions of some templates differ only in one line-separator character or in the final newline) (one with two file-system "
+    "(thorough; <= 6 for four of the pairs), over {load(env0|env1, a|b), modify(a|b), clear} for 6 equally configured pairs (one over a loader that reports one file for all names with autoescape selected by name; the two-roots pair edits files keeping size and mtime; source versions of some templates differ only in one line-separator character or in the final newline) (one with two file-system "
     "loaders serving the same name from different roots) and 10 pairs differing in one compile-relevant option, plus "
     "Hypothesis-generated long histories; (d) MemcachedBytecodeCache over a fake client with per-call fault schedules. "
     "Non-trivial = some judged load happened while an entry for the same key existed in some (valid, damaged, stale, "
@@ -134,11 +137,17 @@ def _mkenv(spec, store, bcc):
         kw["extensions"] = [EXTS[e] for e in opts["extensions"]]
     if opts.get("finalize") == "star":
         kw["finalize"] = _finalize_star
+    if opts.get("autoescape") == "select":
+        kw["autoescape"] = jinja2.select_autoescape(enabled_extensions=("html",), default_for_string=False)
     kind = spec.get("loader", "dict")
     if kind == "dict":
         loader = jinja2.DictLoader(store.cur)
     elif kind in ("fsA", "fsB"):
         loader = jinja2.FileSystemLoader(store.root(kind))
+    elif kind == "onefile":
+        # a loader that keeps all templates in one file and reports that file for every name
+        shared, cur = store.shared_file(), store.cur
+        loader = jinja2.FunctionLoader(lambda name: (cur[name], shared, None) if name in cur else None)
     else:
         raise core.HarnessError("loader kind %r" % kind)
     return cls(loader=loader, **kw)
@@ -153,7 +162,12 @@ LINE_SEPS = ["\n", "\x0b", "\x0c", "\x1c", "\x85", "\u2028", "\u2029", "\x1d", "
 class _Store:
     """Current sources: a dict (DictLoader) mirrored into two directories (FileSystemLoaders)."""
 
-    def __init__(self, scratch, tpl):
+    FIXED_MTIME_NS = 1_600_000_000_000_000_000
+
+    def __init__(self, scratch, tpl, mtime=None):
+        if mtime not in (None, "fixed"):
+            raise core.HarnessError("mtime policy %r" % (mtime,))
+        self.mtime = mtime  # "fixed": files keep one modification time across edits (cp -p, rsync -t, archives)
         self.scratch = scratch
         self.tpl = dict(tpl)
         self.ver = dict.fromkeys(tpl, 0)
@@ -172,8 +186,18 @@ class _Store:
         return self._roots[kind]
 
     def _write(self, d, n):
-        with open(os.path.join(d, n), "w", encoding="utf-8", newline="") as f:
+        p = os.path.join(d, n)
+        with open(p, "w", encoding="utf-8", newline="") as f:
             f.write(self.cur[n])
+        if self.mtime == "fixed":
+            os.utime(p, ns=(self.FIXED_MTIME_NS, self.FIXED_MTIME_NS))
+
+    def shared_file(self):
+        p = os.path.join(self.scratch, "all-templates.txt")
+        if not os.path.exists(p):
+            with open(p, "w", encoding="utf-8") as f:
+                f.write("(all templates of this loader live in this file)\n")
+        return p
 
     def _set(self, n):
         v = self.ver[n]
@@ -442,10 +466,11 @@ def _fs_cache(cache_dir, log=None):
 
 def probe_write(spec, src):
     """Generator-side helper: (total bytes, write boundaries) of one entry write for this template."""
+    case = {}
     with _Scratch() as sd:
         cache_dir = os.path.join(sd, "cache")
         os.mkdir(cache_dir)
-        store = _Store(sd, {"a": src})
+        store = _Store(sd, {"a": src}, case.get("mtime"))
         plan = _Plan(None, "kill", cache_dir, None)
         with _Patched(plan):
             _mkenv(spec, store, _fs_cache(cache_dir)).get_template("a")
@@ -462,7 +487,7 @@ def _check_crash(case):
         cache_dir = os.path.join(sd, "cache")
         snap_dir = os.path.join(sd, "snap")
         os.mkdir(cache_dir)
-        store = _Store(sd, {"a": src})
+        store = _Store(sd, {"a": src}, case.get("mtime"))
         ref = _mkenv(spec, store, None)
         if case["prior"] == "old":
             got = _outcome(_mkenv(spec, store, _fs_cache(cache_dir)), "a")
@@ -583,7 +608,7 @@ def _check_damage(case):
         cache_dir = os.path.join(sd, "cache")
         os.mkdir(cache_dir)
         tpl = {"a": src, "b": src if (dmg[0] == "foreign_name" and dmg[1]) else FOREIGN_SRC}
-        store = _Store(sd, tpl)
+        store = _Store(sd, tpl, case.get("mtime"))
         ref = _mkenv(spec, store, None)
         got = _outcome(_mkenv(spec, store, _fs_cache(cache_dir)), "a")
         exp = _expected(ref, spec, store, "a")
@@ -762,7 +787,7 @@ def _check_hist(case):
     with _Scratch() as sd:
         cache_dir = os.path.join(sd, "cache")
         os.mkdir(cache_dir)
-        store = _Store(sd, case["tpl"])
+        store = _Store(sd, case["tpl"], case.get("mtime"))
         logs = [[], []]
         if memc:
             from jinja2.bccache import MemcachedBytecodeCache
@@ -882,6 +907,7 @@ T_ERR = "line1 v@V@\n{{ x }}\n{{ 1 // zero }}"
 T_NL = "a v@V@\nb\r\nc{{ x }}\n"
 T_SMALL = "{{ x }}v@V@"
 T_SELF = T_MAIN + "{{ self }}"  # names the template the code was compiled for
+T_NAMED = "{{ x }}|{{ self }}|{{ '<b>' }}v@V@{% if x %}\n  {{ items|length }}{% endif %}"
 T_SEP = "first line@S@second line {{ x }}|{{ items|join(',') }}"  # versions differ in one separator character only
 T_TAIL = "tail {{ x }}@T@"  # versions differ in the final newline only (visible with keep_trailing_newline)
 T_TRANS = "{% trans %}  hello\n  {{ x }}  {% endtrans %}v@V@"
@@ -900,13 +926,18 @@ STRUCT_POINTS = [["tmp_before"], ["tmp_after"], ["close_after"], ["replace_befor
 
 EQUAL_PAIRS = [
     (spec(), spec(), {"a": T_SELF, "b": T_SELF}),
-    (spec("fsA"), spec("fsB"), {"a": T_ERR, "b": T_ERR}),
+    # two roots serving the same names; edits keep file size and modification time (rsync -t / cp -p / archive deployments)
+    (spec("fsA"), spec("fsB"), {"a": T_ERR, "b": T_MAIN}, {"mtime": "fixed"}),
     (spec(autoescape=True, enable_async=True, trim_blocks=True), spec(autoescape=True, enable_async=True, trim_blocks=True),
      {"a": T_CALL, "b": T_SEP}),
     (spec(sandboxed=True, extensions=["do", "loopcontrols"]), spec(sandboxed=True, extensions=["do", "loopcontrols"]),
      {"a": T_EXT, "b": T_CALL}),
 ]
 EQUAL_PAIRS.append((spec(keep_trailing_newline=True), spec(keep_trailing_newline=True), {"a": T_TAIL, "b": T_SEP}))
+# one file holds all templates (the loader reports it for every name); same source text under a name that is escaped
+# (.html) and one that is not: compilation depends on the name, not only on source and file name
+EQUAL_PAIRS.append((spec("onefile", autoescape="select"), spec("onefile", autoescape="select"),
+                    {"page.html": T_NAMED, "page.txt": T_NAMED}))
 DIFF_PAIRS = [
     ({"autoescape": True}, {"a": T_MAIN, "b": T_FIN}),
     ({"enable_async": True}, {"a": T_MAIN, "b": T_CALL}),
@@ -924,13 +955,24 @@ N_LOADS = 4
 
 
 def hist_pairs():
-    for a, b, tpl in EQUAL_PAIRS:
-        yield [a, b], tpl, "full"
+    """(environments, templates, oracle, extra case fields).  The operation alphabet speaks of templates 'a' and 'b':
+    they stand for the first and second name of the pair's template dict."""
+    for a, b, tpl, *extra in EQUAL_PAIRS:
+        yield [a, b], tpl, "full", (extra[0] if extra else {})
     for k, (opts, tpl) in enumerate(DIFF_PAIRS):
         pair = [spec(), spec(**opts)]
         if k % 2:
             pair.reverse()
-        yield pair, tpl, "weak"
+        yield pair, tpl, "weak", {}
+
+
+def hist_case(pair, ops):
+    envs, tpl, oracle, extra = pair
+    names = dict(zip("ab", tpl))
+    ops = [[op[0], names[op[1]]] if op[0] == "M" else [op[0], op[1], names[op[2]]] if op[0] == "L" else list(op) for op in ops]
+    case = {"kind": "hist", "envs": envs, "tpl": tpl, "ops": ops, "oracle": oracle}
+    case.update(extra)
+    return case
 
 
 def histories(maxlen):
@@ -943,15 +985,15 @@ def histories(maxlen):
 def hist_cases(maxlen, extra=0):
     pairs = list(hist_pairs())
     for ops in histories(maxlen):
-        for envs, tpl, oracle in pairs:
-            yield {"kind": "hist", "envs": envs, "tpl": tpl, "ops": ops, "oracle": oracle}
+        for pair in pairs:
+            yield hist_case(pair, ops)
     if extra:
         # one more step for the plain equal pair, the two-roots pair and the autoescape / async pairs
         some = [pairs[0], pairs[1], pairs[len(EQUAL_PAIRS)], pairs[len(EQUAL_PAIRS) + 1]]
         for ops in histories(maxlen + extra):
             if len(ops) > maxlen:
-                for envs, tpl, oracle in some:
-                    yield {"kind": "hist", "envs": envs, "tpl": tpl, "ops": ops, "oracle": oracle}
+                for pair in some:
+                    yield hist_case(pair, ops)
 
 
 def _offsets(total, boundaries, dense):
@@ -996,11 +1038,13 @@ def damage_cases(tier):
             total, bounds = probe_write(sp, src)
             dense = tier == "thorough" or n in (0, 6)
             n += 1
+            # file-backed templates: later edits keep the file's size class and its modification time
+            extra = {} if sp["loader"] == "dict" else {"mtime": "fixed"}
             for k in _offsets(total, bounds, dense) + [total + 7]:
-                yield {"kind": "damage", "env": sp, "src": src, "damage": ["truncate", k]}
+                yield dict({"kind": "damage", "env": sp, "src": src, "damage": ["truncate", k]}, **extra)
             for d in [["zero"], ["dir"], ["dir_nonempty"], ["stale"], ["foreign_name", True], ["foreign_name", False],
                       ["append", 1], ["append", 40]] + [["magic", m] for m in MAGICS] + [["other_interp", m] for m in OTHER_INTERPS]:
-                yield {"kind": "damage", "env": sp, "src": src, "damage": d}
+                yield dict({"kind": "damage", "env": sp, "src": src, "damage": d}, **extra)
 
 
 GET_B = ["ok", "raise", "none", ["trunc", 15], ["trunc", 40], ["trunc", 300], "empty", ["trunc", 1], ["trunc", 64], ["trunc", 65],
@@ -1036,10 +1080,10 @@ def long_history_strategy():
 
     @st.composite
     def one(draw):
-        envs, tpl, oracle = draw(st.sampled_from(pairs))
+        pair = draw(st.sampled_from(pairs))
         ops = draw(st.lists(st.sampled_from(HIST_OPS), min_size=5, max_size=40))
         ops = ops + [draw(st.sampled_from(HIST_OPS[:N_LOADS]))]
-        return {"kind": "hist", "envs": envs, "tpl": tpl, "ops": ops, "oracle": oracle}
+        return hist_case(pair, ops)
 
     return one()
 
